@@ -280,7 +280,7 @@ func ReadBank(n *core.Node, ctx sdk.Context) BankState {
 // BalKey builds the key used in BankState.Bal.
 func BalKey(addr []byte, denom string) string { return hex.EncodeToString(addr) + "/" + denom }
 
-// DeltaInt is a signed change of one quantity.
+// Delta maps a quantity (balance key, denomination, token holder) to its signed change.
 type Delta map[string]*big.Int
 
 // Add accumulates d into the delta of key k (zero entries are dropped).
